@@ -109,10 +109,21 @@ def flatten(ops, tol=0.05):
     return contours
 
 
+def flatten_adaptive(ops, tol, scale=1.0):
+    """Flatten with chord tolerance max(tol, extent/40000) (in the units of ops); `scale` is the factor by
+    which the result will be magnified, so the bound is applied to the magnified size."""
+    coarse = flatten(ops, 1e12)
+    if not coarse:
+        return coarse
+    allp = np.vstack(coarse)
+    extent = float(np.ptp(allp, axis=0).max())
+    return flatten(ops, max(tol, extent / 40000.0))
+
+
 def flatten_svg_d(d, tol=0.01):
     pen = RecordingPen()
     parse_path(d, pen)
-    return flatten(pen.value, tol)
+    return flatten_adaptive(pen.value, tol)
 
 
 def count_segments_svg_d(d):
@@ -124,7 +135,7 @@ def count_segments_svg_d(d):
 def flatten_glyph(glyphset, name, tol=0.01):
     pen = DecomposingRecordingPen(glyphset)
     glyphset[name].draw(pen)
-    return flatten(pen.value, tol)
+    return flatten_adaptive(pen.value, tol)
 
 
 def glyph_ops(glyphset, name):
@@ -187,9 +198,15 @@ def resample(contours, step):
     return np.vstack(out)
 
 
-def hausdorff(c1, c2, step=2.0):
+def length(contours):
+    return float(sum(np.sqrt(((np.roll(c, -1, axis=0) - c) ** 2).sum(1)).sum() for c in contours))
+
+
+def hausdorff(c1, c2, step=2.0, max_samples=1500):
+    """Sampled two-sided Hausdorff distance (a lower bound of the true one: never a false alarm)."""
     if not c1 or not c2:
         return float("inf") if (c1 or c2) else 0.0
+    step = max(step, max(length(c1), length(c2)) / max_samples)
     return max(dist_to(c2, resample(c1, step)).max(), dist_to(c1, resample(c2, step)).max())
 
 
